@@ -4,6 +4,7 @@ import (
 	"crypto/sha256"
 	"fmt"
 	"github.com/filecoin-project/go-f3/gpbft"
+	"os"
 	"sort"
 	"strings"
 	"sync"
@@ -35,14 +36,16 @@ type Mode struct {
 // non-initial states too"): a lagging participant whose inbox is withheld for a while, or a partition of
 // the honest participants with a Byzantine participant that echoes every honest vote back to its sender.
 type Policy struct {
-	Kind       string  // "", "lag", "partition", "slow", "latestart"
-	Lagger     int     // lag: participant whose incoming messages are withheld
-	FlushRound uint64  // lag: the inbox is released once another honest participant reaches this round (or is done)
-	LIFO       bool    // lag: release newest first
-	Groups     [][]int // partition: groups of honest participants; cross-group messages are withheld
-	HealAfter  int     // partition: events after which the partition heals (0: never)
-	Echo       bool    // partition: the Byzantine participant echoes every honest vote to its sender
-	Slow       []Link  // slow: messages of the given phase on the given link arrive one timeout late (held until after the next timer event)
+	Kind       string      // "", "lag", "partition", "slow", "latestart"
+	Lagger     int         // lag: participant whose incoming messages are withheld
+	FlushRound uint64      // lag: the inbox is released once another honest participant reaches this round (or is done)
+	FlushPhase gpbft.Phase // latestart: ... and at least this step of that round
+	LIFO       bool        // lag: release newest first
+	Groups     [][]int     // partition: groups of honest participants; cross-group messages are withheld
+	HealAfter  int         // partition: events after which the partition heals (0: never)
+	Echo       bool        // partition: the Byzantine participant echoes every honest vote to its sender
+	Prelude    []string    // Byzantine broadcasts (specs) that open the base schedule: a member that votes, then crashes
+	Slow       []Link      // slow: messages of the given phase on the given link arrive one timeout late (held until after the next timer event)
 }
 
 // Link is a directed honest-to-honest link for one phase.
@@ -56,7 +59,11 @@ func (p Policy) String() string {
 	case "lag":
 		return fmt.Sprintf("lag(p%d until round %d, lifo=%v)", p.Lagger, p.FlushRound, p.LIFO)
 	case "latestart":
-		return fmt.Sprintf("latestart(p%d until round %d or the others are done)", p.Lagger, p.FlushRound)
+		sl := ""
+		for _, l := range p.Slow {
+			sl += fmt.Sprintf(",p%d>p%d:%s late", l.From, l.To, l.Phase)
+		}
+		return fmt.Sprintf("latestart(p%d until round %d %s or the others are done%s)", p.Lagger, p.FlushRound, p.FlushPhase, sl)
 	case "partition":
 		return fmt.Sprintf("partition(%v heal@%d echo=%v)", p.Groups, p.HealAfter, p.Echo)
 	case "slow":
@@ -333,7 +340,7 @@ func (e *Explorer) collect(s *System, ended string) {
 		}
 		if len(e.sample) < 3 && len(s.trace) > 0 {
 			t := s.trace
-			if len(t) > 60 {
+			if len(t) > 60 && os.Getenv("VERIF_E1_FULLTRACE") == "" {
 				t = append(append([]string{}, t[:60]...), "…")
 			}
 			e.sample = append(e.sample, strings.Join(t, " ")+" => "+o)
